@@ -56,6 +56,7 @@ fn emit_choice(
 
         if choice.has_choice_only_content
             && !choice.has_start_content
+            && choice.body_divert_is_inline
             && matches!(choice.body.as_slice(), [Node::Divert(_)])
         {
             branch_nodes.extend(tokenize_inline_content(&format!(" {selected_text}"))?);
@@ -98,7 +99,8 @@ fn emit_choice(
                     choice.body.as_slice(),
                     [Node::Divert(d)] if d.target == "END" || d.target == "DONE"
                 );
-            let body_is_inline_divert = matches!(choice.body.as_slice(), [Node::Divert(_)])
+            let body_is_inline_divert = choice.body_divert_is_inline
+                && matches!(choice.body.as_slice(), [Node::Divert(_)])
                 && selected_text.ends_with(char::is_whitespace);
             if !body_is_terminal_divert && !body_is_inline_divert {
                 branch_nodes.push(Node::Newline);
